@@ -1629,11 +1629,21 @@ def shared_trackers(check: Check, repo: Repo, rule: str = "SHARED-TRACKERS") -> 
         raise AnalysisError("SHARED-TRACKERS: copy constructors not found")
 
 
+CANCEL_CATCH_EXEMPT = {
+    ("execution/executor.py", "Executor.execute_operation.await_result"):
+        "this coroutine is only interrupted when the *caller* cancels the task awaiting the whole operation, which is not one "
+        "of C06's stop kinds (close after k results, abort signal, failing resolver or source)",
+    ("execution/incremental/incremental_executor.py", "IncrementalExecutor.execute_execution_group.await_result"):
+        "the only canceller of this coroutine is Computation.abort, which itself runs the same sub_executor.abort as its "
+        "on_abort callback while the computation is pending",
+}
+
+
 def cancel_catch(check: Check, repo: Repo, mods: list[Module], rule: str = "CANCEL-CATCH") -> None:
     check.rule(
         rule,
-        "a handler that exists to cancel awaited work when the awaiting coroutine is itself interrupted (its "
-        "body calls <task>.cancel() and re-raises) catches BaseException: the interruption arrives as "
+        "a handler that exists to cancel / abort awaited work when the awaiting coroutine is itself interrupted (its "
+        "body calls .cancel() / .abort() / .aclose() and re-raises) catches BaseException: the interruption arrives as "
         "asyncio.CancelledError, which `except Exception` does not catch - the inner task would keep running "
         "after its awaiter is gone (asyncio.gather propagates the cancellation to its children by itself and "
         "is exempt; asyncio.wait and a bare task are not)",
@@ -1648,7 +1658,8 @@ def cancel_catch(check: Check, repo: Repo, mods: list[Module], rule: str = "CANC
             if not awaited or all(isinstance(v, ast.Call) and last_attr(v) in ("gather", "gather_with_cancel") for v in awaited):
                 continue
             for h in t.handlers:
-                cancels = [c for s in h.body for c in ast.walk(s) if isinstance(c, ast.Call) and isinstance(c.func, ast.Attribute) and c.func.attr == "cancel"]
+                cancels = [c for s in h.body for c in ast.walk(s) if isinstance(c, ast.Call) and isinstance(c.func, ast.Attribute)
+                           and c.func.attr in ("cancel", "abort", "aclose", "cancel_incremental_work")]
                 reraises = any(isinstance(x, ast.Raise) and x.exc is None for s in h.body for x in ast.walk(s))
                 if not (cancels and reraises):
                     continue
@@ -1656,8 +1667,12 @@ def cancel_catch(check: Check, repo: Repo, mods: list[Module], rule: str = "CANC
                     {unparse(e) for e in h.type.elts} if isinstance(h.type, ast.Tuple) else {unparse(h.type)})
                 ok = bool(types & {"BaseException", "CancelledError", "asyncio.CancelledError"})
                 n += 1
-                check.ob(rule, h, f"{qualname_of(h)}: except {', '.join(sorted(types))}: ... {node_text(cancels[0], 40)}; raise", ok,
-                         "catches cancellation" if ok else "does not catch CancelledError: the task is only cancelled for ordinary exceptions")
+                why = "catches cancellation" if ok else "does not catch CancelledError: the cleanup only runs for ordinary exceptions"
+                if not ok:
+                    ex = CANCEL_CATCH_EXEMPT.get((mod.rel.split("src/graphql/")[-1], qualname_of(h)))
+                    if ex:
+                        ok, why = True, "exempt: " + ex
+                check.ob(rule, h, f"{qualname_of(h)}: except {', '.join(sorted(types))}: ... {node_text(cancels[0], 40)}; raise", ok, why)
     if n < 1:
         raise AnalysisError("CANCEL-CATCH: no cancelling handler found")
 
@@ -1717,3 +1732,50 @@ def handler_type_arg(check: Check, repo: Repo, mods: list[Module], rule: str = "
                          "the type of the position in hand" if ok else f"`{unparse(a)}` is read from a shared object, not the type of this position")
     if n < 4:
         raise AnalysisError("HANDLER-TYPE: handle_field_error calls not found")
+
+
+# -- C06: buffers of produced-but-undelivered work are drained when the execution is stopped ---------------
+
+DRAIN_SITES = [
+    # (module, class, queue attribute, the routine that stops the class's work)
+    ("execution.incremental.work_queue", "WorkQueue", "_channel", "cancel"),
+    ("execution.incremental.stream_item_queue", "StreamItemQueue", "_entries", "abort"),
+]
+
+
+def cancel_drains(check: Check, repo: Repo, rule: str = "CANCEL-DRAINS") -> None:
+    check.rule(
+        rule,
+        "results that were produced but not yet handed on sit in asyncio queues (WorkQueue._channel: graph "
+        "events not yet handled; StreamItemQueue._entries: stream items not yet batched). Such a result may "
+        "carry work of its own (a nested @stream that is already open) which only becomes visible to the "
+        "cancel machinery when the result is handled. The routine that stops the class's work therefore drains "
+        "the queue (get_nowait / empty) and cancels the work carried by what it finds; a stop routine that never "
+        "looks into the queue leaves nested sources of undelivered items open",
+    )
+    classes = ClassIndex(repo)
+    for mn, cname, attr, stopper in DRAIN_SITES:
+        ci = classes.get(mn, cname)
+        m = ci.methods().get(stopper)
+        if m is None:
+            raise AnalysisError(f"{cname}.{stopper} not found")
+        # the stop routine and the private helpers of the class it calls
+        bodies = [m]
+        for _ in range(2):
+            for b in list(bodies):
+                for c in ast.walk(b):
+                    if isinstance(c, ast.Call) and isinstance(c.func, ast.Attribute) and unparse(c.func.value) == "self" \
+                            and c.func.attr in ci.methods() and ci.methods()[c.func.attr] not in bodies:
+                        bodies.append(ci.methods()[c.func.attr])
+        drains = []
+        for b in bodies:
+            alias = {a.targets[0].id for a in ast.walk(b) if isinstance(a, ast.Assign) and isinstance(a.targets[0], ast.Name)
+                     and unparse(a.value) == f"self.{attr}"}
+            for c in ast.walk(b):
+                if isinstance(c, ast.Call) and isinstance(c.func, ast.Attribute) and c.func.attr in ("get_nowait", "empty"):
+                    r = unparse(c.func.value)
+                    if r == f"self.{attr}" or r in alias:
+                        drains.append(c)
+        check.ob(rule, m, f"{cname}.{stopper}: undelivered results in self.{attr}", bool(drains),
+                 f"drained: {node_text(drains[0], 50)}" if drains else
+                 f"{cname}.{stopper} (and the helpers it calls) never reads self.{attr}: work carried by buffered results is not cancelled")
